@@ -1,4 +1,5 @@
 import HailVerif.Proofs.AttemptsTrigger
+import HailVerif.Model.AttemptBilling
 /-!
 # C03 — Billed attempt time is monotone and bounded by the attempt
 
@@ -7,6 +8,8 @@ text of the working tree on every run), `msecDiffRollup` (the increment `attempt
 aggregates) and `billedAtInsert` (what `attempt_resources_after_insert` bills for an attempt's current times).
 
 `upd old new` is the row MySQL stores when an `UPDATE` proposes `new` for the stored row `old`.
+`AttemptBilling.run` (Model/AttemptBilling.lean) is what the three triggers make of a history of reports and resource
+registrations of one attempt: the stored row and, per `attempt_resources` row, the usage the aggregated tables hold.
 All statements are for every stored row and every proposed row; the `seq_*` theorems lift them to every finite
 sequence of reports starting from the all-NULL row that `add_attempt` inserts.
 -/
@@ -181,6 +184,62 @@ theorem seq_step_monotone (reports : List Row) (next : Row)
   rw [this]
   exact billed_monotone_unless _ _ (seq_inv reports) hnull
 
+/-! ## what is actually billed: the usage the aggregated tables hold for the attempt's resources -/
+
+open HailVerif.AttemptBilling in
+/-- the aggregated usage of every resource of the attempt is its quantity times the billed duration of the stored row -/
+def Billed (a : AttemptBilling.Att) : Prop := ∀ r ∈ a.res, r.usage = billed a.row * r.quantity
+
+open HailVerif.AttemptBilling in
+/-- every report and every resource registration keeps `usage = quantity × billed(row)`: the increment of
+`attempts_after_update` telescopes and `attempt_resources_after_insert` bills the current row -/
+theorem step_billed (a : Att) (ev : Ev) (h : Billed a) : Billed (a.step ev) := by
+  cases ev with
+  | report new =>
+    intro r hr
+    simp only [Att.step, List.mem_map] at hr
+    obtain ⟨r0, hr0, rfl⟩ := hr
+    have hd := msecDiffRollup_eq a.row (attemptsBeforeUpdate a.row new)
+    simp only [Att.step, hd, added, h r0 hr0]
+    rw [← Int.add_mul]
+    congr 1
+    omega
+  | addResource q =>
+    intro r hr
+    simp only [Att.step, List.mem_append, List.mem_singleton] at hr
+    rcases hr with hr | rfl
+    · exact h r hr
+    · simp only [Att.step, billedAtInsert_eq a.row, added]
+
+open HailVerif.AttemptBilling in
+/-- after any history of reports and resource registrations, each resource is billed quantity × billed(row) … -/
+theorem seq_usage_eq (evs : List Ev) : Billed (AttemptBilling.run AttemptBilling.fresh evs) := by
+  suffices h : ∀ a, Billed a → Billed (AttemptBilling.run a evs) from h _ (by intro r hr; simp [AttemptBilling.fresh] at hr)
+  induction evs with
+  | nil => intro a h; exact h
+  | cons e es ih => intro a h; exact ih _ (step_billed a e h)
+
+open HailVerif.AttemptBilling in
+/-- … hence never a negative amount (the aggregated delta never drives a resource's usage below zero) … -/
+theorem seq_usage_nonneg (evs : List Ev) (r : Res) (hr : r ∈ (AttemptBilling.run AttemptBilling.fresh evs).res) (hq : 0 ≤ r.quantity) :
+    0 ≤ r.usage := by
+  rw [seq_usage_eq evs r hr]
+  exact Int.mul_nonneg (billed_nonneg _) hq
+
+open HailVerif.AttemptBilling in
+/-- … and, while the stored row satisfies the stored-row invariant (every row stored by an `UPDATE` does, `upd_inv`), once the
+attempt has ended never more than quantity × (end − start), clamped at 0 -/
+theorem usage_le_span (a : Att) (hb : Billed a) (hinv : Inv a.row) (s e : Int)
+    (hs : a.row.start_time = some s) (he : a.row.end_time = some e) (r : Res) (hr : r ∈ a.res) (hq : 0 ≤ r.quantity) :
+    r.usage ≤ max (e - s) 0 * r.quantity := by
+  rw [hb r hr]
+  apply Int.mul_le_mul_of_nonneg_right _ hq
+  unfold billed
+  rw [hs]
+  cases hro : a.row.rollup_time with
+  | none => simp; omega
+  | some ro => have := hinv ro e hro he; simp; omega
+
 /-! ## non-vacuity: the clamps and the exemptions are exercised by concrete reachable rows -/
 
 -- a heartbeat after start bills; a completion with an earlier end than the last heartbeat is the "earlier end" exemption
@@ -194,5 +253,18 @@ example : billed (upd ⟨some 1, some 4, none, none⟩ ⟨some 1, none, none, so
     billed (⟨some 1, some 4, none, none⟩ : Row) = 3 := by decide
 -- report with end before start (clock skew): billed is clamped to 0
 example : billed (upd ⟨some 5, some 5, none, none⟩ ⟨some 5, some 3, some 3, some "completed"⟩) = 0 := by decide
+-- the same skew with resources registered: start reported at 5 (worker clock), unscheduled at 3 (driver clock): nothing is billed,
+-- and a late duplicate start at 1 then bills 3 - 1 = 2 per unit
+open HailVerif.AttemptBilling in
+example : (AttemptBilling.run AttemptBilling.fresh [.report ⟨some 5, some 5, none, none⟩, .addResource 4, .report ⟨none, some 3, some 3, some "cancelled"⟩]).res
+    = [⟨4, 0⟩] := by decide
+open HailVerif.AttemptBilling in
+example : (AttemptBilling.run AttemptBilling.fresh [.report ⟨some 5, some 5, none, none⟩, .addResource 4, .report ⟨none, some 3, some 3, some "cancelled"⟩,
+      .report ⟨some 1, some 1, none, none⟩]).res = [⟨4, 8⟩] := by decide
+-- resources registered after billed time accrued are billed for it at once
+open HailVerif.AttemptBilling in
+example : (AttemptBilling.run AttemptBilling.fresh [.report ⟨some 1, some 1, none, none⟩, .report ⟨none, some 6, none, none⟩, .addResource 3]).res
+    = [⟨3, 15⟩] := by decide
 
 end HailVerif.C03
+
